@@ -7,7 +7,7 @@
    (every real operation runs under the bucket's mutex, so a schedule of concurrent callers IS such
    a list; Wait() is a run of Try polls, lemma wait_polls_history). *)
 From Coq Require Import QArith Qminmax.
-From ZenoV Require Import Rate.Bucket Rate.BucketProofs Rate.Manager Rate.ManagerProofs.
+From ZenoV Require Import Rate.Bucket Rate.BucketProofs Rate.Manager Rate.ManagerProofs Rate.Sweep Rate.SweepProofs.
 Open Scope Z_scope.
 
 (* After every history - whatever the timing, monotone or not - tokens stay within [0, capacity]. *)
@@ -74,9 +74,20 @@ Print Assumptions C13_table_bounded.
    host and the host's releases are exactly that bucket's grants - so the six theorems above hold
    per host for a bucket's lifetime.  (Across an eviction they do not: evict_resets_refuted.) *)
 Theorem C13_host_lifetime : forall ls h m e m' gs,
-  find h (mg_tab m) = Some e -> not_evicted h ls -> mrun m ls = Some (m', gs) ->
-  exists e', find h (mg_tab m') = Some e' /\
+  Manager.find h (mg_tab m) = Some e -> not_evicted h ls -> mrun m ls = Some (m', gs) ->
+  exists e', Manager.find h (mg_tab m') = Some e' /\
     me_bucket e' = final (me_bucket e) (host_history h ls) /\
     host_grants h gs = grants (me_bucket e) (host_history h ls).
 Proof. exact lifetime_lemma. Qed.
 Print Assumptions C13_host_lifetime.
+
+(* The stale-bucket sweep: getBucket stamps the bucket on every access and a cleanup tick deletes only
+   buckets whose stamp is older than the period.  Along every history of accesses (to any hosts) and
+   ticks in which each tick comes within the period of h's most recent access, h keeps its bucket -
+   the one stamped by that access, not a fresh one - so a host in continuous use has ONE bucket
+   lifetime and the per-bucket theorems above hold for it across sweeps. *)
+Theorem C13_sweep_spares_active_hosts : forall ops period tab h a,
+  alookup h tab = Some a -> active h period a ops ->
+  alookup h (srun period tab ops) = Some (last_access h a ops).
+Proof. exact sweep_spares_active_hosts_lemma. Qed.
+Print Assumptions C13_sweep_spares_active_hosts.
